@@ -1,8 +1,10 @@
 ------------------------------ MODULE MC_Honey ------------------------------
-EXTENDS Honey
+EXTENDS Honey, HoneyFold
 CONSTANTS MaxEntries, MaxN
 Entries == [w : 1..D, n : 1..MaxN]
 MCLists == { l \in UNION { [1..k -> Entries] : k \in 1..MaxEntries } :
                /\ Cum(l, Len(l)) = D
                /\ \A j \in 1..(Len(l) - 1) : l[j].w > l[j + 1].w }      \* groups are sorted, probabilities distinct
+(* the fold restatement used by Apalache (HoneyFold / HoneyApa) is the recursive loop of HoneyDefs *)
+FoldIsLoop == WalkA([j \in DOMAIN lst |-> Mass(lst[j])], u, D, R) = Walk(lst, u)
 =============================================================================
